@@ -31,6 +31,9 @@ PBase == <<
   TSeq(<<M(PI(0, 255)), M(PI(0 - 5, 5)), M(TInt(NoCon)), M(PI(0, 65536)), M(PI(0 - 128, 127)), M(TInt(Rng(0, 7, TRUE))),
          M(PI(0 - 2147483647, 2147483647)), M(PI(0, 2147483647)), M(Wide)>>, 9, FALSE),
   TSeq(<<M(TBool), M(TStr("utf8", NoSz)), M(TStr("ia5", NoSz)), M(TOct(NoSz)), M(TBits(NoSz)), M(TNull), M(Enum3), M(TEnum(2, 1, TRUE)), M(I07)>>, 9, FALSE),
+  \* field numbers beyond 15: the key no longer fits the one-octet varint (16..) - as message and as oneof
+  TSeq([i \in 1..33 |-> IF i % 3 = 0 THEN O(TBool) ELSE IF i % 3 = 1 THEN M(I07) ELSE O(TStr("utf8", NoSz))], 33, FALSE),
+  TSeq(<<M(TChoice([i \in 1..33 |-> IF i % 2 = 1 THEN I07 ELSE TBool], 33, FALSE)), M(I07)>>, 2, FALSE),
   TSeq(<<M(Inner), O(Inner), M(TSeqOf(I07, NoSz)), M(TSeqOf(Inner, NoSz)), M(TSeqOf(TStr("utf8", NoSz), NoSz)), M(TSeqOf(TBool, NoSz)), M(I07)>>, 7, FALSE),
   TSeq(<<M(Ch1), O(Ch1), M(Ch2), M(I07)>>, 4, FALSE),
   TSeq(<<O(I07), O(TBool), O(TStr("utf8", NoSz)), O(TOct(NoSz)), O(Enum3), O(PI(0 - 5, 5)), M(I07)>>, 7, FALSE),
@@ -80,6 +83,9 @@ PExtra(i) ==
   IF i = LenIdx
   THEN \* content of the nested message = 2 + n octets for n <= 127: 125, 126, 127 octets of text give 127, 128, 129
        [q \in 1..8 |-> LET n == 122 + q IN << << << <<Ascii(n)>> >> >>, << << << <<Ascii(n + 1)>> >>, << <<Ascii(3)>> >>, << <<Ascii(n)>> >> >> >>, <<5>> >>]
+  ELSE IF PZoo[i].k = "seq" /\ PZoo[i].comps[1].t.k = "choice" /\ Len(PZoo[i].comps[1].t.alts) > 8
+  THEN \* a wide oneof: every alternative (field numbers on both sides of 15 / 16)
+       LET alts == PZoo[i].comps[1].t.alts IN [a \in 1..Len(alts) |-> << <<[i |-> a - 1, v |-> Rep(alts[a])[1]]>>, <<5>> >>]
   ELSE IF i # EmptyIdx THEN <<>>
   ELSE << << <<<<FullM, EmptyM, FullM>>>>, <<[i |-> 0, v |-> EmptyM]>>, <<>>, <<5>> >>,
           << <<<<EmptyM, EmptyM>>>>, <<[i |-> 0, v |-> FullM]>>, <<EmptyM>>, <<5>> >>,
